@@ -52,7 +52,6 @@ Proof. exact certified2_instruction. Qed.
 
 Theorem C02b_output_is_layout_ok : forall indexed defs ps budget r,
   assemble2 indexed defs ps budget = Ok r ->
-  Forall OutputP.no_empty_emit (r_nodes r) ->
   LayoutInv.layout_ok (r_banks r) (r_items r) (r_bits r) = true /\ LayoutInv.windows_ok (r_banks r) = true.
 Proof. exact Resolver2TopP.C02b_output_is_layout_ok. Qed.
 
@@ -196,7 +195,6 @@ Proof. exact assemble2_budget_nonvacuous. Qed.
 (* ---------------- for Props/C06.v ---------------- *)
 Theorem C06_resolver_output_layout : forall indexed defs ps budget r,
   assemble2 indexed defs ps budget = Ok r ->
-  Forall OutputP.no_empty_emit (r_nodes r) ->
   LayoutInv.layout_ok (r_banks r) (r_items r) (r_bits r) = true /\ LayoutInv.windows_ok (r_banks r) = true.
 Proof. exact Resolver2TopP.C02b_output_is_layout_ok. Qed.
 
